@@ -55,8 +55,16 @@ def claims_model(claims: dict, requests: dict, nows: list, leeway):
                     if not wanted or any(not w for w in wanted):
                         return must, may, "empty / falsy requested audience"
                     auds = val if isinstance(val, list) else [val]
-                    if not any(w in auds for w in wanted):
+                    readings = [any(w in auds for w in wanted)]
+                    if opt.get("values") is not None and opt.get("value") is not None:
+                        # both options at once: the statement does not say whether they add up to one list of audiences or
+                        # have to hold each - demand a verdict only where the readings agree
+                        readings.append(any(w in auds for w in list(wanted) + [opt["value"]]))
+                        readings.append(readings[0] and opt["value"] in auds)
+                    if not any(readings):
                         must.add("invalid")
+                    elif not all(readings):
+                        may.add("invalid")
             continue
         if opt:
             if not opt.get("allow_blank") and isinstance(val, str) and val == "":
